@@ -497,6 +497,21 @@ func runC17(r *Runner) string {
 			c.hostileText("bech32.dec", nil, s, 40)
 			c.hostileText("addr.dec", []string{"btc"}, s, 40)
 		}
+		// valid checksums over very short data parts: none, a version alone, a version and one group
+		for _, hrp := range []string{"a", "bc", "tb", "ltc", "A"}[it%5 : it%5+1] {
+			for n := 0; n <= 2; n++ {
+				d5 := make([]byte, n)
+				for i := range d5 {
+					d5[i] = byte(rng.Intn(32))
+				}
+				s := hBechEncodeRaw(strings.ToLower(hrp), d5)
+				if hrp == "A" {
+					s = strings.ToUpper(s)
+				}
+				c.do("bech32.dec", []string{sx(s)}, "bech32.dec:short-data-part", len(s), true)
+				c.do("addr.dec", []string{"btc", sx(s)}, "addr.dec:short-data-part", len(s), true)
+			}
+		}
 		var h20 [20]byte
 		copy(h20[:], r.bytesN(20))
 		constants.CurrentNetwork = constants.BitcoinNetwork
